@@ -34,6 +34,10 @@ ASSUMES = [
     "no empty list/dict is passed for a flattened field reached through a dotted path (there sync and asyncio differ: reported)",
     "asyncio client with a cross-package request: every flattened key is a top-level field (otherwise the constructor call raises: reported)",
     "no flattened key is a prefix of another flattened key of the same method (the valuation model keeps such paths apart)",
+    "at most one member of any oneof is passed in one call (the Values contract has no oneofs; such calls are judged by the oracle only)",
+    "signatures resolve: a reserved field name in a plain-protobuf (dependency) request makes _fields_mapping raise KeyError (modelled; reported)",
+    "request call: a cross-package proto-plus request whose set fields all hold false values is replaced by a new empty message "
+    "(stated in C05_flattened_equiv's second disjunct; reported)",
 ]
 CONTROL = ["request", "retry", "timeout", "metadata"]
 IMPORTS = "From GV Require Import Model.Flatten."
@@ -44,13 +48,20 @@ def regen(ctx):
 
 
 # ---------------------------------------------------------------------------------------------- API generation
-def pick_sigs(r, idx, req_fqn, cross, hostile):
+def pick_sigs(r, idx, req_fqn, cross, hostile, avoid_defects=False):
+    """signatures over the paths of a request. avoid_defects: stay out of the reported candidate-defect regions that make
+    generation fail or the asyncio constructor raise (used by C03, which is about something else)"""
     paths = A.paths_of(idx, req_fqn, depth=2)
     reserved = set(flatgen.reserved_names())
     cands = []
     for p, f, cont in paths:
         segs = p.split(".")
         if any(s in reserved for s in segs[:-1]) and hostile != "reserved_segment":
+            continue
+        in_pb2 = not idx.proto_plus_pkg(idx.package_of(cont))
+        if segs[-1] in reserved and in_pb2 and (avoid_defects or r.random() < 0.9):
+            continue                          # reserved field name in a plain-protobuf request: generation raises KeyError (reported)
+        if avoid_defects and cross and "." in p:
             continue
         cands.append((p, f, cont))
     nsig = r.choice([0, 1, 1, 2, 2, 3])
@@ -668,7 +679,13 @@ class ApiRun:
             pkw = coq.lst(f"({coq.s(params[i])}, {leaf_of(exp_msg, keys[i], passed=True)})" for i in sub_)
             ra = "RNone" if mode == "kwargs" else f"(RMsg {req_term(exp_msg, keys_x, mkeys_x)})"
             kwt = pkw if mode in ("kwargs", "mixed") else "[]"
-            if obs_term in ("ORaiseType",) and variant == "Async" and cross and extra:
+            groups = [(exp[i][0].rsplit(".", 1)[0] if "." in exp[i][0] else "", exp[i][2].oneof_index) for i in sub_
+                      if exp[i][2].HasField("oneof_index") and not exp[i][2].proto3_optional]
+            if mode == "kwargs" and len(set(groups)) < len(groups):
+                # two members of one oneof passed together: protobuf keeps the last one; the valuation model has no oneofs
+                # (ASSUMES); the direct oracle below still judges the call
+                ctx.features["same-oneof-pair (oracle only)"] += 1
+            elif obs_term in ("ORaiseType",) and variant == "Async" and cross and extra:
                 # the asyncio constructor hit a top-level field of another type: inside the reported defect region, types of
                 # fields that are not flattened are not part of the model
                 ctx.features["async-ctor-defect-region-unmodelled-outcome"] += 1
